@@ -107,11 +107,27 @@ def run_one(case):
                 if cond == "exists":
                     shutil.copy(good, arc)
             args = ["c", target, "src"]
-            vol = {"vol-digits": "4096", "vol-b": "4096b", "vol-k": "4k", "vol-m": "1m", "vol-g": "1g", "vol-bad-unit": "10x", "vol-empty": ""}.get(opt)
+            vol = {"vol-digits": "4096", "vol-b": "4096b", "vol-k": "4k", "vol-m": "1m", "vol-g": "1g", "vol-tiny": "200b", "vol-bad-unit": "10x", "vol-empty": ""}.get(opt)
+            if opt == "vol-tiny":
+                import random as _r
+                with open(os.path.join(wd, "src", "big.bin"), "wb") as f:      # enough data for about 2000 volumes of 200 bytes
+                    f.write(_r.Random(5).randbytes(400000))
             if vol is not None:
                 args = ["c", "-v", vol, target, "src"]
             ev["exit"], so, se = cli(args, wd)
             ev["detail"] = se[-200:]
+            if ev["exit"] != 0 and opt == "vol-tiny" and "RecursionError" in se:
+                # the delegated library alone: one write() that spans many volumes recurses once per volume boundary
+                import multivolumefile
+                import random as _r
+                try:
+                    with multivolumefile.MultiVolume(os.path.join(wd, "alone.bin"), mode="wb", volume=200, ext_digits=4) as mv:
+                        mv.write(_r.Random(6).randbytes(400000))
+                    ev["lib_alone"] = "ok"
+                except RecursionError:
+                    ev["lib_alone"] = "RecursionError"
+                for fn in glob.glob(os.path.join(wd, "alone.bin.*")):
+                    os.unlink(fn)
             if ev["exit"] == 0 and vol is None and not os.path.exists(arc):
                 ev["effect_ok"] = False
                 ev["detail"] = f"exit 0 but {os.path.basename(arc)} was not written; directory holds {sorted(os.listdir(wd))[:6]}"
@@ -120,7 +136,7 @@ def run_one(case):
                     names, data = lib_members(py7zr, arc)
                 else:
                     import multivolumefile
-                    want_vol = {"vol-digits": 4096, "vol-b": 4096, "vol-k": 4096, "vol-m": 1 << 20, "vol-g": 1 << 30}[opt]
+                    want_vol = {"vol-digits": 4096, "vol-b": 4096, "vol-k": 4096, "vol-m": 1 << 20, "vol-g": 1 << 30, "vol-tiny": 200}[opt]
                     vols = sorted(glob.glob(arc + ".[0-9][0-9][0-9][0-9]"))
                     sizes = [os.path.getsize(v) for v in vols]
                     vol_ok = bool(vols) and all(x == want_vol for x in sizes[:-1]) and 0 < sizes[-1] <= want_vol
@@ -193,6 +209,8 @@ def run_one(case):
 
 def classify(tr, l):
     e = tr[0]
+    if e.get("lib_alone") == "RecursionError":
+        return "delegated-library:multivolumefile:recursion", e
     return f"cli:{e['cmd']}:{e['cond']}:{e['opt']}:exit={e['exit']}:effect={'ok' if e['effect_ok'] else 'WRONG'}", e
 
 
@@ -205,7 +223,7 @@ def run(tier, rep, ev):
     # enumerate the same combinations the model does
     combos = []
     for cmd, conds, opts in (("i", ["absent"], ["none"]),
-                             ("c", ["absent", "exists"], ["none", "no-suffix", "dotted-name", "vol-digits", "vol-b", "vol-k", "vol-m", "vol-g", "vol-bad-unit", "vol-empty"]),
+                             ("c", ["absent", "exists"], ["none", "no-suffix", "dotted-name", "vol-digits", "vol-b", "vol-k", "vol-m", "vol-g", "vol-tiny", "vol-bad-unit", "vol-empty"]),
                              ("a", ["intact", "absent", "header-damaged"], ["none"]),
                              ("l", ["intact", "intact-empty", "intact-dirs", "header-damaged", "data-damaged", "stored-damaged", "needs-password"], ["none", "verbose"]),
                              ("x", ["intact", "intact-empty", "intact-dirs", "header-damaged", "data-damaged", "stored-damaged", "needs-password", "unsupported-method"],
